@@ -166,18 +166,49 @@ func ruleC11_3(c *Ctx) {
 	notNil := p.Func("(rcproxy/core/codec.Error).NotNil")
 	errF := p.Field(pkgCore, "Frag", "Error")
 	// the branch: guard  f.Error.NotNil()  true
+	isNil := p.Func("(rcproxy/core/codec.Error).Nil")
 	inBranch := func(b *ssa.BasicBlock) bool {
 		return guardHas(guardsAt(b), func(g Guard) bool {
 			call, ok := g.Cond.(*ssa.Call)
-			if !ok || !g.Truth {
+			if !ok {
 				return false
 			}
-			if notNil != nil && call.Call.StaticCallee() == notNil {
+			if notNil != nil && call.Call.StaticCallee() == notNil && g.Truth || isNil != nil && call.Call.StaticCallee() == isNil && !g.Truth {
 				_, is := fieldLoad(call.Call.Args[0], errF)
 				return is
 			}
 			return false
 		})
+	}
+	// the function that holds the branch: conn.sread itself or a helper whose result conn.sread returns as its error
+	// (`return f, c.settle(f)`); errIdx is the position of that error among the holder's results
+	holder, errIdx := sread, 1
+	hasBranch := func(fn *ssa.Function) bool {
+		for _, b := range fn.Blocks {
+			if inBranch(b) {
+				return true
+			}
+		}
+		return false
+	}
+	if !hasBranch(sread) {
+		for _, r := range returnsReachable(sread) {
+			rs := results(r.(*ssa.Return))
+			if len(rs) != 2 {
+				continue
+			}
+			v, idx := strip(rs[1]), 0
+			if ex, ok := v.(*ssa.Extract); ok {
+				v, idx = ex.Tuple, ex.Index
+			}
+			if call, ok := v.(*ssa.Call); ok {
+				if h := call.Call.StaticCallee(); h != nil && p.isHelper(h) && hasBranch(h) {
+					bindCall(h, call.Call.Args)
+					holder, errIdx = h, idx
+					c.touch(h)
+				}
+			}
+		}
 	}
 	want := map[string]bool{"Error": false, "RspBody": false, "Done": false, "FragDoneNumber": false}
 	fragDoneAll := false
@@ -201,7 +232,7 @@ func ruleC11_3(c *Ctx) {
 			}
 		})
 	}
-	for _, b := range sread.Blocks {
+	for _, b := range holder.Blocks {
 		if !inBranch(b) {
 			continue
 		}
@@ -260,12 +291,12 @@ func ruleC11_3(c *Ctx) {
 	}
 	// the marking loop is unconditional inside the branch, and the branch returns (f, nil) so that the event loop flushes
 	var markLoop *Loop
-	loops := loopsOf(sread)
+	loops := loopsOf(holder)
 	var markHelper ssa.Instruction
 	for _, in := range branchInstrs {
 		if st, ok := in.(*ssa.Store); ok {
 			if fa, ok := st.Addr.(*ssa.FieldAddr); ok && fieldVar(fa.X.Type(), fa.Field) == doneFrag {
-				if st.Parent() == sread {
+				if st.Parent() == holder {
 					if l := innermostLoop(loops, st.Block()); l != nil {
 						markLoop = l
 					}
@@ -285,7 +316,7 @@ func ruleC11_3(c *Ctx) {
 		}
 	}
 	nret := 0
-	for _, b := range sread.Blocks {
+	for _, b := range holder.Blocks {
 		if !inBranch(b) {
 			continue
 		}
@@ -304,8 +335,8 @@ func ruleC11_3(c *Ctx) {
 			c.check(okDom, "conn.sread error branch marks every fragment Done on every path", c.at(r), "the marking loop dominates the branch's return",
 				"the loop that marks the sibling fragments Done is skipped on some path of the error branch (e.g. only for some command types): late replies of the siblings of a failed request are then merged into the already answered request")
 		}
-		c.check(isNilConst(results(r)[1]), "conn.sread error branch returns (f, nil)", c.at(r), "nil error: the event loop goes on to flush the completed request",
-			"after completing the request with an error conn.sread returns "+expr(results(r)[1])+" instead of nil: when that is Continue the event loop skips the flush and the client never receives the error")
+		c.check(errIdx < len(results(r)) && isNilConst(results(r)[errIdx]), "conn.sread error branch returns (f, nil)", c.at(r), "nil error: the event loop goes on to flush the completed request",
+			"after completing the request with an error conn.sread returns "+expr(results(r)[len(results(r))-1])+" instead of nil: when that is Continue the event loop skips the flush and the client never receives the error")
 	}
 	if nret == 0 {
 		c.bad("conn.sread error branch returns (f, nil)", p.pos(sread.Pos()), "the error branch does not return by itself: control falls through to a return whose error may be Continue, so the completed request is not flushed and the client stalls")
